@@ -11,7 +11,7 @@ import vlib, e2e, sync_e2e, scripted
 
 THEOREMS = ['C13_plan_deterministic', 'C13_interleaving_independent', 'C13_sibling_order',
             'C13_children_deleted_first', 'C13_parents_created_first', 'C13_deletes_before_creates',
-            'C13_planner_never_panics']
+            'C13_planner_never_panics', 'C13_whole_sync_independent_of_interleaving']
 
 
 def is_strict_prefix(a, b):
